@@ -56,6 +56,11 @@ WalkFrom(msg, p, jumps, acc, steps, rd) ==
    ELSE WalkFrom(msg, p + 1 + b, jumps, acc \o SubSeq(msg, p + 2, p + 1 + b) \o <<Dot>>,
                  steps + 1, Max(rd1, p + 1 + b))
 
+(* coarse class of a walk result, the <shape> of finding keys: what a parser has to notice *)
+Coarse(why) == CASE why \in {"label-cut", "no-terminator"} -> "runs-past-end"   \* needs bytes after the message
+                 [] why \in {"start-at-end", "ptr-to-end"} -> "at-end"            \* starts exactly at msg_size
+                 [] OTHER -> why
+
 (* the library refuses offsets inside the header and beyond the message before it looks at anything *)
 Walk(msg, off) ==
    IF Len(msg) < HdrSize THEN Res(FALSE, "short-msg", <<>>, 0, 0, 0)
@@ -94,7 +99,7 @@ VWalk(msg, off, sec, left, offs) ==       \* sec 1 = questions, 2..4 = RR sectio
         IF sec = 4 THEN VRes(TRUE, "ok", Append(offs, off))
         ELSE VWalk(msg, off, sec + 1, U16(msg, 4 + 2 * (sec + 1) - 2), Append(offs, off))
    ELSE LET e == LabelsEnd(msg, off) IN
-        IF ~e.ok THEN VRes(FALSE, IF sec = 1 THEN "q-name-cut" ELSE "rr-name-cut", offs)
+        IF ~e.ok THEN VRes(FALSE, "name-cut", offs)
         ELSE IF sec = 1 THEN
              IF e.end + 4 > n THEN VRes(FALSE, "q-fixed-cut", offs)
              ELSE VWalk(msg, e.end + 4, sec, left - 1, offs)
@@ -102,6 +107,15 @@ VWalk(msg, off, sec, left, offs) ==       \* sec 1 = questions, 2..4 = RR sectio
         ELSE LET rdl == U16(msg, e.end + 8) IN
              IF e.end + 10 + rdl > n THEN VRes(FALSE, "rr-data-cut", offs)
              ELSE VWalk(msg, e.end + 10 + rdl, sec, left - 1, offs)
+
+(* class of ONE record that starts at offset off, read as a question (isq) or as a resource record *)
+RecClass(msg, off, isq) ==
+   LET n == Len(msg)  e == LabelsEnd(msg, off) IN
+   IF off >= n THEN "at-end"
+   ELSE IF ~e.ok THEN "name-cut"
+   ELSE IF isq THEN (IF e.end + 4 > n THEN "q-fixed-cut" ELSE "fits")
+   ELSE IF e.end + 10 > n THEN "rr-fixed-cut"
+   ELSE IF e.end + 10 + U16(msg, e.end + 8) > n THEN "rr-data-cut" ELSE "fits"
 
 Validate(msg) ==
    IF Len(msg) < HdrSize THEN VRes(FALSE, "hdr-short", <<>>)
